@@ -940,7 +940,12 @@ def flw13(ctx):
     if "pos" not in names:
         raise AnchorMissing("FLW-13: context_match_option has no parameter `pos`")
     pl = names.index("pos") + 1
-    T = [i for i, t in b.calls() if (callee_path(t) or "") == "asca::subrule::SubRule::context_match"]
+    CM = "asca::subrule::SubRule::context_match"
+    MO = "asca::subrule::SubRule::match_opt_states"
+    wrappers = {p for p, outs in lib.callgraph.items() if p.startswith("asca::subrule::SubRule::") and CM in outs and p not in (b.path, CM, MO)
+                and lib.body(p) is not None and any((ty or "") == "&mut " + SEGPOS for ty in (lib.body(p).param_tys or [])) and "states" in (lib.body(p).param_names or [])
+                and not p.rsplit("::", 1)[-1].startswith(("context_match_", "match_before", "match_after", "insertion"))}
+    T = [i for i, t in b.calls() if (callee_path(t) or "") == CM or (callee_path(t) or "") in wrappers]
     M = {i for i, t in b.calls() if (callee_path(t) or "") == "asca::subrule::SubRule::match_opt_states"}
     if not T or not M:
         raise AnchorMissing("FLW-13: context_match_option: %d trials of the rest, %d repetitions of the optional" % (len(T), len(M)))
@@ -1318,8 +1323,8 @@ def flw8c(ctx):
     wrappers = {p for p, outs in lib.callgraph.items() if p.startswith("asca::subrule::SubRule::") and p != b.path and any(o in base_trials for o in outs)
                 and not p.endswith(("::insertion_match_exceptions", "::insertion_match", "::insertion_between", "::insertion_after", "::insertion_before"))}
     trials = {i for i, t in b.calls() if (callee_path(t) or "") in base_trials or (callee_path(t) or "") in wrappers}
-    if len(trials) < 4:
-        raise AnchorMissing("FLW-8c: match_contexts_and_exceptions: %d calls of match_before_env / match_after_env (expected 4)" % len(trials))
+    if len(trials) < 2:
+        raise AnchorMissing("FLW-8c: match_contexts_and_exceptions: %d trials of an environment alternative (expected >= 2)" % len(trials))
 
     def cell_of(l, depth=0):
         d = _single_def(b, l)
@@ -1474,13 +1479,30 @@ def env6(ctx):
             if q.get("p") == "bind" and q.get("name") == "ins_match_before":
                 ins_hid = q.get("hid")
 
+    def known(c):
+        """value of a condition when ins_match_before == false: True / False / None (unknown)"""
+        c = hirq.strip(c)
+        if c.get("e") == "path" and c.get("hid") == ins_hid and ins_hid is not None:
+            return False
+        if c.get("e") == "unary" and c.get("op") == "Not":
+            v = known(c["a"])
+            return None if v is None else (not v)
+        if c.get("e") == "binary" and c.get("op") in ("And", "Or"):
+            a_, b2 = known(c["a"]), known(c["b"])
+            if c["op"] == "And":
+                return False if (a_ is False or b2 is False) else (True if (a_ is True and b2 is True) else None)
+            return True if (a_ is True or b2 is True) else (False if (a_ is False and b2 is False) else None)
+        return None
+
     def specialise(e):
-        """the arm body outside an insertion: `if ins_match_before { A } else { B }` -> B"""
+        """the arm body outside an insertion: `if ins_match_before [&& ..] { A } else { B }` -> B"""
         e = hirq.strip(e)
         if isinstance(e, dict) and e.get("e") == "if":
-            c = hirq.strip(e["cond"])
-            if c.get("e") == "path" and c.get("hid") == ins_hid and ins_hid is not None and e.get("else") is not None:
+            v = known(e["cond"])
+            if v is False and e.get("else") is not None:
                 return specialise(e["else"])
+            if v is True:
+                return specialise(e["then"])
         return e
 
     ta, _ = arms_of(top)
